@@ -190,8 +190,8 @@ LEVELS = {
     "C10": ("Proved over the cache model: the cache store holds only complete copies, Open serves the source's bytes, a successful open settles the entry, settled entries are never re-read and stay settled. "
             "Checked every run: access sequences cache vs source (bytes, stat, listings, re-read counts); model = implementation.",
             "Real parallelism of the path lock is exercised by C11's scheduler, not proved."),
-    "C11": ("Proved over the fill state machine: a partial copy is never served, an interrupted fill reports an error, a failed fill leaves nothing servable. "
-            "Checked every run: failures injected at every source/store call and two openers interleaved at every yield point.",
+    "C11": ("Proved over the fill state machine: a partial copy is never served, an interrupted fill reports an error, a failed fill leaves nothing servable -- over every sequence of faults, a source that cannot be opened during a later call included. "
+            "Checked every run: failures injected at every source/store call, the same followed by a re-open with the source down (model = implementation), and two openers interleaved at every yield point.",
             "The path lock itself is Go's sync primitives (trusted)."),
     "C12": ("Proved: for every well-formed archive (distinct resolved names, no file above another entry) the unpacking algorithm builds exactly the logical tree -- each entry, each ancestor as a 0700 directory, nothing else -- in every entry order; names normalise to the root, a real-name path, or an escaping path; an entry whose parent escapes stops unpacking and creates nothing. "
             "Checked every run: both models = implementation on generated archives; unpacked tree vs logical tree on four destinations incl. os.FS, sizes across the 150 KiB threshold.",
@@ -218,7 +218,7 @@ LEVELS = {
             "Checked every run: 1500 operation sequences over view trees model = implementation.",
             "idbblob (js/wasm) is not built or exercised in this sandbox."),
     "C20": ("Proved over the model of fstest's tree comparison: with the default mask mode bits are invisible and extra entries are accepted (the known findings as theorems); a kept mode bit is checked; missing entries, wrong sizes and wrong kinds are rejected; the expected tree is accepted. "
-            "Checked every run: the real suite in a child process against mem, os and 68 single-deviation wrappers; assertion layer model = implementation.",
+            "Checked every run: the real suite in a child process against mem, os and 70 single-deviation wrappers; assertion layer model = implementation.",
             "Partial: three classes of deviants are accepted by the suite (known findings)."),
 }
 for _pid, (_t, _n) in LEVELS.items():
